@@ -195,7 +195,8 @@ class SymNP:
         if has_sym(obj):
             if dtype is not None and _np.dtype(dtype).names:
                 odt = _objectify_dtype(dtype)
-                return _np.array(obj, dtype=odt, *a, **k)
+                # (a SymArray view: the object fields of the table then keep astype() symbolic, too)
+                return _np.array(obj, dtype=odt, *a, **k).view(SymArray)
             return _build_object(obj)
         return _np.array(obj, dtype, *a, **k) if dtype is not None else _np.array(obj, *a, **k)
 
